@@ -286,6 +286,11 @@ func (uconn *UConn) SetClientRandom(r []byte) error {
 func (uconn *UConn) SetSNI(sni string) {
 	hname := hostnameInSNI(sni)
 	uconn.config.ServerName = hname
+	if uconn.config.EncryptedClientHelloConfigList != nil {
+		// With ECH the server_name extension belongs to the outer hello and carries
+		// the config's public name; the name set here goes into the inner hello.
+		return
+	}
 	for _, ext := range uconn.Extensions {
 		sniExt, ok := ext.(*SNIExtension)
 		if ok {
